@@ -33,8 +33,8 @@ ASSUMPTIONS = [
     "the snapshot of vlib.snapshot lists exactly the documented compared fields (all attributes, containment, payloads, entry points, expressions with attributes, edges with labels, IR version, AuxData key sets)",
 ]
 REQUIRED_TAGS = {
-    "quick": ["noise-history", "pert:block.kind", "pert:module.swap-order", "pert:aux.value", "pert:aux.key-rename", "pert:ir.version", "pert:edge.label", "pert:expr.attr", "pert:node.uuid", "expected:differs", "expected:equal"],
-    "thorough": ["noise-history", "pert:block.kind", "pert:module.swap-order", "pert:aux.value", "pert:aux.key-rename", "pert:ir.version", "pert:edge.label", "pert:expr.attr", "pert:node.uuid", "expected:differs", "expected:equal"],
+    "quick": ["inplace-edit", "noise-history", "pert:block.kind", "pert:module.swap-order", "pert:aux.value", "pert:aux.key-rename", "pert:ir.version", "pert:edge.label", "pert:expr.attr", "pert:node.uuid", "expected:differs", "expected:equal"],
+    "thorough": ["inplace-edit", "noise-history", "pert:block.kind", "pert:module.swap-order", "pert:aux.value", "pert:aux.key-rename", "pert:ir.version", "pert:edge.label", "pert:expr.attr", "pert:node.uuid", "expected:differs", "expected:equal"],
 }
 
 
@@ -443,6 +443,81 @@ def subnode_checks(g, res, x, dx, y, dy, what, expect_equal_nodes):
         res.fail("C18:cfg-false-on-equal", what)
 
 
+def inplace_edit(g, ir, k):
+    """edit one compared field of `ir` in place; returns the undo function"""
+    kind = k % 10
+    n = k // 10
+    mods = list(ir.modules)
+    syms = list(ir.symbols)
+    blks = list(ir.byte_blocks)
+    bis = list(ir.byte_intervals)
+    secs = list(ir.sections)
+    if kind == 0 and syms:
+        s_ = syms[n % len(syms)]
+        old = s_.name
+        s_.name = old + "~"
+        return lambda: setattr(s_, "name", old)
+    if kind == 1 and syms:
+        s_ = syms[n % len(syms)]
+        old = s_.at_end
+        s_.at_end = not old
+        return lambda: setattr(s_, "at_end", old)
+    if kind == 2 and syms:
+        s_ = syms[n % len(syms)]
+        old = s_._payload if False else (s_.referent if s_.referent is not None else s_.value)
+        s_.value = 12345 if old != 12345 else 54321
+
+        def undo():
+            if isinstance(old, g.Block):
+                s_.referent = old
+            else:
+                s_.value = old
+
+        return undo
+    if kind == 3 and blks:
+        b = blks[n % len(blks)]
+        old = b.size
+        b.size = old + 1
+        return lambda: setattr(b, "size", old)
+    if kind == 4 and blks:
+        b = blks[n % len(blks)]
+        old = b.offset
+        b.offset = old + 1
+        return lambda: setattr(b, "offset", old)
+    if kind == 5 and mods:
+        m = mods[n % len(mods)]
+        old = m.name
+        m.name = old + "~"
+        return lambda: setattr(m, "name", old)
+    if kind == 6 and secs:
+        s_ = secs[n % len(secs)]
+        f = g.Section.Flag.ThreadLocal
+        had = f in s_.flags
+        (s_.flags.discard if had else s_.flags.add)(f)
+        return lambda: (s_.flags.add if had else s_.flags.discard)(f)
+    if kind == 7 and bis:
+        bi = bis[n % len(bis)]
+        old = bi.address
+        bi.address = 77 if old != 77 else 78
+        return lambda: setattr(bi, "address", old)
+    if kind == 8:
+        exprs = [(bi, off, x) for bi in bis for off, x in bi.symbolic_expressions.items()]
+        if exprs:
+            bi, off, x = exprs[n % len(exprs)]
+            a = g.SymbolicExpression.Attribute.TLSDESC
+            had = a in x.attributes
+            (x.attributes.discard if had else x.attributes.add)(a)
+            return lambda: (x.attributes.add if had else x.attributes.discard)(a)
+    if kind == 9:
+        nodes = list(ir.cfg_nodes)
+        if nodes:
+            e = g.Edge(nodes[n % len(nodes)], nodes[(n // 5) % len(nodes)], g.Edge.Label(g.Edge.Type.Sysret, True, False))
+            if e not in ir.cfg:
+                ir.cfg.add(e)
+                return lambda: ir.cfg.discard(e)
+    return None
+
+
 def noise(g, ir, ks):
     """a history with no net effect on one side: things are added and removed
     again (deep_eq is about current content, not about how it came to be)"""
@@ -493,6 +568,28 @@ def noise(g, ir, ks):
                 del bi.symbolic_expressions[1 << 60]
 
 
+def inplace_history(g, case, res, A, dA, L, dL):
+    """the same two objects compared after an in-place edit of one of them, and
+    once more after the edit is undone (no verdict may be remembered)"""
+    for k in case.get("inplace", []):
+        undo = inplace_edit(g, L, k)
+        if undo is None:
+            continue
+        res.tag("inplace-edit")
+        dL2 = deep_snapshot(g, L)
+        pair_check(g, res, A, dA, L, dL2, "A vs save/load copy edited in place (%d)" % (k % 10))
+        subnode_checks(g, res, A, dA, L, dL2, "A vs save/load copy edited in place (%d)" % (k % 10), False)
+        undo()
+        dL3 = deep_snapshot(g, L)
+        if dL3 != dL:
+            res.fail("C18:harness-undo-failed", snapshot.diff(dL, dL3))
+            return
+        pair_check(g, res, A, dA, L, dL3, "A vs save/load copy after undoing the edit (%d)" % (k % 10))
+        subnode_checks(g, res, A, dA, L, dL3, "A vs save/load copy after undoing the edit (%d)" % (k % 10), True)
+        if res.failures:
+            return
+
+
 def run_case(case):
     g = _gt()
     res = pbt.CaseResult()
@@ -523,6 +620,12 @@ def run_case(case):
             res.fail(pbt.exception_bucket("C18:noise", e), repr(e))
             return res
     dA, dB0, dL = deep_snapshot(g, A), deep_snapshot(g, B0), deep_snapshot(g, L)
+    if case.get("inplace_first"):
+        # the very first comparison of these objects happens while one is edited
+        res.tag("inplace-first")
+        inplace_history(g, case, res, A, dA, L, dL)
+        if res.failures:
+            return res
     pair_check(g, res, A, dA, A, dA, "A vs A")
     pair_check(g, res, A, dA, B0, dB0, "A vs independently built copy")
     pair_check(g, res, A, dA, L, dL, "A vs save/load copy")
@@ -534,6 +637,10 @@ def run_case(case):
     subnode_checks(g, res, A, dA, B0, dB0, "A vs independent copy", True)
     if res.failures:
         return res
+    if not case.get("inplace_first"):
+        inplace_history(g, case, res, A, dA, L, dL)
+        if res.failures:
+            return res
     first_module = min((h for h, d in dA["nodes"].items() if d.get("kind") == "Module"), default=None)
     nontrivial = False
     names = sorted(cat) + IR_PERTS
@@ -609,6 +716,8 @@ def strategy():
             "spec": specmod.specs(max_aux_depth=1),
             "perts": st.lists(pert, min_size=1, max_size=6),
             "noise": st.one_of(st.just([]), st.lists(st.integers(0, 500), min_size=1, max_size=5)),
+            "inplace": st.one_of(st.just([]), st.lists(st.integers(0, 400), min_size=1, max_size=4)),
+            "inplace_first": st.booleans(),
         }
     )
 
